@@ -358,7 +358,8 @@ PROPS["C17"] = dict(
                 "character loop, R16/R16c) returns Ok with matrix rows (a, b, k) = fold of step_row over the characters of each of the two components whenever both fold, third row zero, and Err when there are not exactly two components "
                 "(fo.whole, fo.dims; loop invariants fo.inv*); (3) the induction over strings (fo.grammar, fo.component: counted proof obligations): for every component made of an x term, a y term and a single-digit rational constant "
                 "in ANY order, each at most once, with signs, optional '+' and optional blanks, the fold equals the value of the expression (coefficient of x, of y, constant) — so every string of the grammar parses to the map it denotes. "
-                "No reachable panic in the function for any input (body obligations). Kani runs the whole real parser, string library included, on the 19 strings the crate itself parses (complete for that set) and on seven further strings (bounded stand-ins).",
+                "No reachable panic in the function for any input (body obligations), including the real constructor Transform2::from(Matrix3) it ends with (from.matrix). (4) The WHOLE real WyckoffSite::new (map + Result-collect, R16): on success one operation per table string, in order, "
+                "each being what from_operations promises of that string (wy.new.len, wy.new.each); any table containing a string without exactly two components yields Err (wy.new.err, for every table - the Kani harness on one malformed table is kept as a bounded cross-check); well-formed strings yield Ok (wy.new.ok). Kani runs the whole real parser, string library included, on the 19 strings the crate itself parses (complete for that set) and on seven further strings (bounded stand-ins).",
     assumptions=_GEOM_ASSUMPTIONS[:1] + ["digit_val shim: `c.to_string().parse::<u64>()? as f64` on a character matched by '0'..='9' returns its decimal value and cannot fail",
                                          "string-library shims: `trim_matches(&['(', ')']).split_terminator(',').collect()` yields the components ops_spec(s) (uninterpreted: which substrings they are is not proved), `op.chars()` yields the characters of the component in order"],
     undecided=["that the components of \"(r0,r1)\" are r0 and r1 (semantics of trim_matches/split_terminator) is string-library code: assumed through ops_spec, exercised by the Kani strings and the parse_grammar oracle",
